@@ -101,7 +101,7 @@ CLAIMED = {
                 technique='deterministic simulation: full WSGI stack over simulated clock, file system and upstream with HTTP-500 injection; model-based history checking'),
     'C12': dict(level='exploration', ref='DESIGN.md 6.6',
                 text='seeded cache contents (tiles stored at seeded simulated times, some in the same second; foreign objects: a '
-                     'second cache, lock files, stray files) x one cleanup task (level list / range / open and zero-ended ranges / all, also spelled as resolutions; remove_all, remove_before as '
+                     'second cache, lock files, stray files) x one cleanup task (level list / range / open and zero-ended ranges / all, also spelled as resolutions, with a second empty grid of the cache named first in the entry; remove_all, remove_before as '
                      'absolute time / relative age / file mtime, default; full extent, bbox (grid SRS or EPSG:4326), polygon, multi-part or empty coverage; seeded fixed-offset local time zone and file time-stamp granularity; a deep variant places tiles around the bundle borders of levels 8/9 of a twelve-level pyramid; an earlier cleanup task of the same run may precede the task under test; directories may be older than their tiles; removals may take seconds; a temporary file may vanish while the cleanup walks its directory; tiles may be stored again before the cleanup; the cache may have a coverage of its own; another process may hold the write lock of a database file during the cleanup (a loud failure is accepted, a silent one is not); SQLite caches may run in WAL mode with connections kept open by another process (database files carry simulated time stamps); the clock of the cleanup may be behind the newest tiles; factor-2, sqrt2 and custom-resolution grids) built by the real '
                      'CleanupConfiguration and executed by the real cleanup() - all three strategies, with the real '
                      'TileCleanupWorker threads under the scheduler - on file (6 layouts, linked single-colour tiles, cache-level refresh_before), compact v1/v2 (SimFS), sqlite, mbtiles, '
